@@ -165,9 +165,12 @@ class ParsedDocstring(abc.ABC):
         """
         try:
             document = self.to_node()
-        except NotImplementedError:
+            contents = build_table_of_content(document, depth=depth)
+        except Exception:
+            # Either this kind of parsed docstring has no docutils representation
+            # or the conversion failed: the failure is reported when the docstring
+            # itself is rendered, see epydoc2stan.safe_to_stan().
             return None
-        contents = build_table_of_content(document, depth=depth)
         docstring_toc = new_document('toc')
         if contents:
             docstring_toc.extend(contents)
